@@ -89,12 +89,15 @@ def gen(rng, tier):
             prev = [o for o in ops if o["op"] == "merge"]
             if prev:
                 p = rng.choice(prev)
-                ops.append({"op": "merge", "criteria": p["criteria"], "reuse": p["save"], "save": "m%d" % len(ops)})
+                crit2 = p["criteria"] if rng.random() < 0.5 else rng.choice([None, ["seqid", "end_inc"], ["end_inc"], ["seqid", "any_inc", "strand"],
+                                                                                 ["seqid", ["end_thr", 3], "strand", "feature_type"], []])
+                ops.append({"op": "merge", "criteria": crit2, "reuse": p["save"], "save": "m%d" % len(ops)})
         elif k == "children_bp":
             ops.append({"op": "children_bp", "ftype": rng.choice(["exon", "CDS"]), "merge": rng.random() < 0.6})
         elif k == "merge_all":
             merged_all = True
             ops.append({"op": "merge_all", "exclude": rng.random() < 0.4, "groups": rng.choice([None, None, [["exon"]], [["exon", "CDS"]], [["exon"], ["CDS"]]]),
+                        "criteria": rng.choice([None, None, None, ["seqid", "end_inc", "strand"], ["seqid", "end_inc"], ["seqid", ["end_thr", 2], "strand", "feature_type"]]),
                         "end": rng.choice(["none", "none", "crash", "restart"])})
         else:
             ops.append({"op": k})
@@ -291,7 +294,7 @@ def run(case):
                 kw = {"exclude_components": op["exclude"]}
                 if op["groups"] is not None:
                     kw["featuretypes_groups"] = op["groups"]
-                r = call(node, {"op": "merge_all", "h": "h", "kw": kw})
+                r = call(node, {"op": "merge_all", "h": "h", "kw": kw, "criteria": op.get("criteria")})
                 if not r["ok"]:
                     V.append(viol("C16.merge_all", "merge_all(%r) raised %s: %s" % (kw, r["exc"], r["msg"]), kind="merge_all_failed", exc=r["exc"],
                                   exclude=op["exclude"]))
@@ -304,7 +307,7 @@ def run(case):
                     sel = [f for f in pre["features"] if grp is None or f["cols"][2] in grp]
                     sel.sort(key=lambda f: (f["cols"][0], f["cols"][2], f["cols"][6], f["cols"][3]))
                     items = [_item(f) for f in sel]
-                    for g in model_merge(items, None):
+                    for g in model_merge(items, op.get("criteria")):
                         if len(g) > 1:
                             exp_new.append(sorted(items[i]["id"] for i in g))
                 got_new = sorted(sorted(o["children"]) for o in r["out"])
